@@ -49,6 +49,9 @@ use crate::{Stake, ValidatorIndex, ValidatorInfo};
 /// Sampling strategies involving rejection sampling may panic after rejecting this many samples.
 pub const MAX_TRIES_PER_SAMPLE: usize = 100_000;
 
+/// Seed for the validator shuffle in [`PartitionSampler::new`], the same on all nodes.
+const PARTITION_SHUFFLE_SEED: [u8; 32] = *b"ALPENGLOW-PARTITION-SAMPLER-SEED";
+
 /// Strategy for sampling individual validators from some distribution.
 ///
 /// Use [`into_quorum_strategy`] to turn any single-node strategy into a
@@ -452,7 +455,10 @@ impl PartitionSampler {
         let total_stake: Stake = validators.iter().map(|v| v.stake).sum();
         let stake_per_bin = total_stake.div_ceil(num_bins as u64);
         let mut validators_random = validators;
-        validators_random.shuffle(&mut rand::rng());
+        // NOTE: All nodes have to derive the same partition from the same validator set,
+        // otherwise they disagree on relays. So the shuffle uses a constant seed,
+        // not the thread-local RNG.
+        validators_random.shuffle(&mut StdRng::from_seed(PARTITION_SHUFFLE_SEED));
 
         // partition into bins
         let mut current_bin = 0;
